@@ -132,6 +132,11 @@ type Backend struct {
 	AuthMode           int
 	AuthUser, AuthPass string
 	AcceptVersions     map[byte]bool // if non-nil, STARTUPs of other versions get "Invalid or unsupported protocol version"
+	// SysHostile: how the rows of system.local / system.peers are malformed (0: not at all).  1 local rpc_address null,
+	// 2 local data_center null, 3 local rpc_address 0.0.0.0 (system.local has no peer column to fall back on), 4 local
+	// rpc_address of three bytes, 5 system.local answered with zero rows, 6 system.local answered VOID, 7 local partitioner
+	// null, 8 every peers row with a null rpc_address, 9 peers rows with a null data_center, 10 local row repeated twice
+	SysHostile             int
 	SlowStartupVersion     byte                     // if non-zero only STARTUPs of this protocol version are slowed down per host
 	StartupDelay           time.Duration            // every STARTUP is answered after this delay (widens the window in which a session is being created)
 	PrepareErr             map[string][]Outcome     // per prepared-id (hex) outcomes of PREPARE attempts
@@ -348,6 +353,13 @@ func (b *Backend) SetStartupDelay(d time.Duration) {
 // Lock / Unlock: for setting several configuration fields at once.
 func (b *Backend) Lock()   { b.mu.Lock() }
 func (b *Backend) Unlock() { b.mu.Unlock() }
+
+// SetSysHostile sets how system-table rows are malformed from now on (0: not at all).
+func (b *Backend) SetSysHostile(mode int) {
+	b.mu.Lock()
+	b.SysHostile = mode
+	b.mu.Unlock()
+}
 
 // SetSlowStartupHost makes every later STARTUP on host n wait before it is answered (0: no longer).
 func (b *Backend) SetSlowStartupHost(n int, d time.Duration) {
@@ -974,6 +986,9 @@ func (c *Conn) handle(hdr, body, raw []byte) bool {
 				return true
 			}
 			res := be.systemRows(c, strings.Contains(uq, "FROM SYSTEM.LOCAL"))
+			if be.SysHostile == 6 && strings.Contains(uq, "FROM SYSTEM.LOCAL") {
+				res = &message.VoidResult{}
+			}
 			be.mu.Unlock()
 			c.host.mu.Lock()
 			c.sysOK++
@@ -1250,7 +1265,37 @@ func (b *Backend) systemRows(c *Conn, local bool) message.Message {
 	}
 	var data message.RowSet
 	if local {
-		data = append(data, row(c.host.IP))
+		rw := row(c.host.IP)
+		switch b.SysHostile {
+		case 1:
+			rw[1] = nil
+		case 2:
+			rw[3] = nil
+		case 3:
+			rw[1] = enc(v, datatype.Inet, net.ParseIP("0.0.0.0"))
+		case 4:
+			rw[1] = []byte{1, 2, 3}
+		case 7:
+			rw[7] = nil
+		}
+		if b.SysHostile != 5 {
+			data = append(data, rw)
+		}
+		if b.SysHostile == 10 {
+			data = append(data, rw)
+		}
+	} else if b.SysHostile == 8 || b.SysHostile == 9 {
+		for _, ip := range b.Topology {
+			if ip != c.host.IP {
+				rw := row(ip)
+				if b.SysHostile == 8 {
+					rw[1] = nil
+				} else {
+					rw[3] = nil
+				}
+				data = append(data, rw)
+			}
+		}
 	} else {
 		for _, ip := range b.Topology {
 			if ip != c.host.IP {
